@@ -682,7 +682,7 @@ class Interp(Hooks):
                     return "pred1(" + b[len("preds("):]
                 if b.startswith("succs("):
                     return "succ1(" + b[len("succs("):]
-                if b.startswith("in_edges("):
+                if b.startswith("in_edges(") or b.startswith("succs_minus("):
                     return self._index(b, 0, d)
                 return f"next({', '.join(a)})"
             if fn.id == "len" and len(a) == 1:
